@@ -412,6 +412,16 @@ PIN_SLOT0 = 10
 NAN = math.nan
 
 
+def full_collect():
+    """The model's `gc` step = the collector run to completion.  One `gc.collect()` pass can leave cyclic
+    garbage behind when finalizers/weakref callbacks run during the pass (observed: a dead domain class
+    survives the pass in which the parametrised funsor class pointing to it is finalised); a second pass
+    frees it.  "Lets it be reclaimed" is about the fixpoint."""
+    for _ in range(5):
+        if gc.collect() == 0:
+            break
+
+
 def new_array(k, rng):
     # same shape/dtype for both slots: the allocator recycles freed blocks of this size readily
     return np.arange(6.0).reshape(2, 3) + float(rng.randrange(0, 3))
@@ -454,10 +464,15 @@ class World:
     def args_of(self, r):
         return eval(r.args, self.env)
 
-    def build(self, r, interp):
-        src = r.expr if r.expr is not None else f"{r.cls.rpartition('.')[2]}(*{r.args})"
+    def build(self, r, interp, args=None):
+        """the real construction; `args` (already evaluated) are reused so that a fresh object inside the
+        arguments (float('nan')) is the one the model was told about"""
         with INTERPS[interp]:
-            return eval(src, self.env)
+            if r.expr is not None:
+                return eval(r.expr, self.env)
+            if args is None:
+                args = eval(r.args, self.env)
+            return self.env[r.cls.rpartition('.')[2]](*args)
 
     def table_snapshot(self):
         """{table name: sorted [(key tokens, value address)]} for every observed table."""
@@ -523,7 +538,7 @@ def warm_up_and_pin(w, rng):
     assert len(w.pinned) < 90
     w.H.clear()
     w.A.clear()
-    gc.collect()
+    full_collect()
 
 
 # ----------------------------------------------------------------------------------------------
@@ -597,8 +612,10 @@ def random_history(rng, length, recipes):
     weights = {"mk": 6, "drop": 2, "pk": 2, "ri": 1, "arr": 1, "gc": 1, "dropP": 1}
     for _ in range(length):
         en = [s for s in al if enabled(s, held)]
-        # favour constructions whose needs were just satisfied, so deep terms get built
-        st = rng.choices(en, weights=[weights[s[0]] for s in en])[0]
+        # favour composite constructions (their arguments are held right now), so deep terms get built
+        st = rng.choices(en, weights=[weights[s[0]] * (4 if s[0] == "mk" and len(RBY[s[1]].needs) >= 2 else
+                                                        2 if s[0] == "mk" and RBY[s[1]].needs else 1)
+                                      for s in en])[0]
         hist.append(st)
         held = apply_sym(st, held)
     return hist
@@ -715,7 +732,7 @@ class Run:
             toks = []
             for a in args:
                 enc(a, w.ids, toks)
-            obj = w.build(r, sym[2])
+            obj = w.build(r, sym[2], args)
             w.H[r.name] = obj
             mcls = r.mcls or w.cls_mcls[r.cls]
             self.req.append(["mk", RSLOT[r.name], w.cls_index[r.cls], r.cyc, Q(mcls), toks, w.ids(obj)])
@@ -733,7 +750,7 @@ class Run:
         elif kind == "arr":
             self.alloc_array(sym[1])
         elif kind == "gc":
-            gc.collect()
+            full_collect()
             self.req.append(["gc"])
         elif kind in ("pk", "ri"):
             src = w.H[sym[1]]
@@ -769,7 +786,7 @@ class Run:
         w.H.clear()
         w.P = None
         w.A.clear()
-        gc.collect()
+        full_collect()
 
 
 def parse_obs(o):
@@ -943,7 +960,7 @@ def run_py_oracle(w, hist, rng):
                 w.A[sym[1]] = new_array(sym[1], rng)
                 arr_gen[sym[1]] += 1
             elif kind == "gc":
-                gc.collect()
+                full_collect()
             elif kind in ("pk", "ri"):
                 src = w.H[sym[1]]
                 with INTERPS[sym[2]]:
@@ -970,20 +987,20 @@ def run_py_oracle(w, hist, rng):
         w.H.clear()
         w.P = None
         w.A.clear()
-        gc.collect()
+        full_collect()
         if any(r() is not None for r in refs):
-            return "after dropping every handle and gc.collect() a term is still alive"
+            return "after dropping every handle and full_collect() a term is still alive"
         pinned_ids = {id(o) for (_, _, _, _, o) in w.pinned}
         for name, d in w.tables.items():
             left = [k for k, v in list(d.items()) if id(v) not in pinned_ids]
             if left:
-                return f"after dropping every handle and gc.collect() table {name} still has {len(left)} entries"
+                return f"after dropping every handle and full_collect() table {name} still has {len(left)} entries"
         return None
     finally:
         w.H.clear()
         w.P = None
         w.A.clear()
-        gc.collect()
+        full_collect()
 
 
 # ----------------------------------------------------------------------------------------------
@@ -1018,7 +1035,7 @@ def python_snippet(hist, note):
         elif kind == "arr":
             lines.append(f"del A[{sym[1]}]; A[{sym[1]}] = np.arange(6.).reshape(2, 3) + {n % 3}")
         elif kind == "gc":
-            lines.append("gc.collect()")
+            lines.append("while gc.collect(): pass")
         elif kind == "pk":
             lines.append(f"with {sym[2]}: P = pickle.loads(pickle.dumps(H[{sym[1]!r}]))")
         elif kind == "ri":
@@ -1055,6 +1072,8 @@ def check_generated_table(ctx, rows):
 def run_batch(ctx, w, hists, label):
     """Execute histories on the real side, then ask the model about all of them, then compare."""
     runs = []
+    full_collect()
+    gc.freeze()     # everything alive now is the harness's own bookkeeping: keep the collector's work small
     for hist in hists:
         run = Run(w, ctx.rng)
         run.prelude()
@@ -1067,8 +1086,6 @@ def run_batch(ctx, w, hists, label):
         run.hist = hist
         runs.append(run)
         run.reset()
-        for _, _, wr in run.tracked:
-            pass
     reqs = ["C07 run " + sx(r.req) for r in runs]
     answers = ctx.driver.ask(reqs)
     for run, ans in zip(runs, answers):
@@ -1101,7 +1118,8 @@ def run_batch(ctx, w, hists, label):
         nontrivial = len({s[1] for s in hist if s[0] == "mk"}) >= 2 or any(s[0] in ("pk", "ri", "arr") for s in hist)
         ctx.case(sample={"stream": label, "history": sym_json(hist)},
                  nontrivial_key=("h", tuple(hist)) if nontrivial else None)
-    return runs
+    recycling_stats(ctx, w, runs)
+    return len(runs)
 
 
 def recycling_stats(ctx, w, runs):
@@ -1131,7 +1149,7 @@ def correspond(ctx):
     for name, why in bad:
         ctx.fail("input", "C07.table", witness={"class": name, "why": why}, expected="own weak intern table",
                  got=why, python=f"# {name}: {why}\nFAILS = True\n")
-    gc.collect()
+    full_collect()
     gc.disable()
     try:
         gc.freeze()
@@ -1145,20 +1163,19 @@ def correspond(ctx):
         depth = 3 if ctx.tier == "quick" else 4
         hs = [fill_interps(h, ctx.rng) for h in enumerate_histories(depth, core)]
         ctx.count("exhaustive-histories", len(hs))
-        all_runs = []
-        for i in range(0, len(hs), 2000):
-            all_runs += run_batch(ctx, w, hs[i:i + 2000], f"exhaustive-depth-{depth}")
+        all_runs = 0
+        for i in range(0, len(hs), 300):
+            all_runs += run_batch(ctx, w, hs[i:i + 300], f"exhaustive-depth-{depth}")
             if len([f for f in ctx.failures if f.witness is not None]) >= 5:
                 break
         nrand = 400 if ctx.tier == "quick" else 6000
         maxlen = 40 if ctx.tier == "quick" else 60
         rh = [fill_interps(random_history(ctx.rng, ctx.rng.randint(6, maxlen), RECIPES), ctx.rng)
               for _ in range(nrand)]
-        for i in range(0, len(rh), 500):
-            all_runs += run_batch(ctx, w, rh[i:i + 500], "random")
+        for i in range(0, len(rh), 100):
+            all_runs += run_batch(ctx, w, rh[i:i + 100], "random")
             if len([f for f in ctx.failures if f.witness is not None]) >= 5:
                 break
-        recycling_stats(ctx, w, all_runs)
         ctx.exhaustive = False
         ctx.extra["exhaustive_depth"] = depth
         ctx.extra["core_alphabet"] = [r.name for r in core]
@@ -1180,7 +1197,7 @@ def search(ctx, broken):
     for name, why in check_generated_table(ctx, rows):
         ctx.fail("input", "C07.table", witness={"class": name, "why": why}, expected="own weak intern table",
                  got=why, python=f"# {name}: {why}\nFAILS = True\n")
-    gc.collect()
+    full_collect()
     gc.disable()
     try:
         w = World(rows)
@@ -1213,7 +1230,7 @@ def replay(ctx, doc):
     if not hist:
         return True
     rows = class_table()
-    gc.collect()
+    full_collect()
     gc.disable()
     try:
         w = World(rows)
